@@ -39,6 +39,7 @@ func hostileCorpus(seed int64) ([][]byte, map[string]reflect.Type) {
 		zoo.CustomHolder{Title: "t", Items: []zoo.Custom{{Key: "k", Val: "v"}}, One: zoo.Custom{Key: "o"}},
 		wideElems(18), zoo.Scalars{I: 1, S: "s", Bin: []byte{9}, T: time.Unix(5, 5000000), F64: 1.25},
 		zoo.Conts{MS: map[string]string{"a": "b"}, LL: [][]int32{{1}, {}}, MP: map[string]*zoo.Small{"p": x}, Ptrs: []*zoo.Small{x}},
+		zoo.HoldRecList{Kids: zoo.RecList{zoo.RecList{}, nil}, N: 1}, zoo.HoldRecMap{M: zoo.RecMap{"a": zoo.RecMap{}}},
 		n2, zoo.Five{A: 1, B: "b", C: 2, D: true, E: 0.5}, g.String(40, -1), g.String(2100, 0), make([]byte, 4200),
 	}
 	all := append([]interface{}{}, vals...)
@@ -141,6 +142,33 @@ func cyclicDirected(tm map[string]reflect.Type) [][]byte {
 				}
 			}
 		}
+	}
+	// a generic list / map that contains itself, bound to a field whose declared type is a container type
+	// that contains itself (conversion must not follow the cycle)
+	cl := append(append([]byte{'C'}, hstr("HoldRecList")...), 0x92, 0x04, 'k', 'i', 'd', 's', 0x01, 'n')
+	out = append(out, append(append([]byte{}, cl...), 0x60, 0x79, 0x51, 0x91, 0x91))
+	out = append(out, append(append([]byte{}, cl...), 0x60, 0x7a, 0x79, 0x51, 0x91, 0x51, 0x91, 0x91))
+	cm := append(append([]byte{'C'}, hstr("HoldRecMap")...), 0x91, 0x01, 'm')
+	out = append(out, append(append([]byte{}, cm...), 0x60, 0x48, 0x01, 'k', 0x51, 0x91, 0x5a))
+	// amplification: a long unknown field name with many instances; many typed back-references to one long generic list
+	{
+		name := strings.Repeat("z", 9000)
+		m := append(append([]byte{0x57, 'C'}, hstr("Five")...), 0x91, 'S', byte(len(name)>>8), byte(len(name)))
+		m = append(m, name...)
+		for i := 0; i < 9000; i++ {
+			m = append(m, 0x60, 'N')
+		}
+		out = append(out, append(m, 0x5a))
+		l := []byte{0x57, 0x58, 0x49, 0x00, 0x00, 0x4e, 0x20} // variable list [ fixed list of 20000 ints ...
+		for i := 0; i < 20000; i++ {
+			l = append(l, 0x90)
+		}
+		l = append(append(l, 'C'), hstr("Slices")...)
+		l = append(l, 0x91, 0x04, 'i', '3', '2', 's')
+		for i := 0; i < 4000; i++ {
+			l = append(l, 0x60, 0x51, 0x91)
+		}
+		out = append(out, append(l, 0x5a))
 	}
 	return out
 }
